@@ -32,6 +32,7 @@ RULE = (
 ASSUMPTIONS = [
     "ideal network = premise of the property; animals are placed >= 5 radii apart (well separated) so single-linkage clustering inside the ideal network recovers the animals",
     "geometry obeys the resolution rule of DESIGN C02/C03: disc radius >= 3 input px, node spacing >= max(3.5 PAF cells, 2r+4), image max side >= 8.5 animal radii so that the default max_edge_length_ratio does not penalise skeleton edges; half of the runs use the portrait form of the scene (x and y exchanged: tall frame, short side ~2.6 radii)",
+    "narrow-band variant of the long family: PAF stride 8, PAF spread 3.5 px, chains along a grid direction 6 px off the cell centres (nearest-cell sampling of the line integral is within 2 px of the line, any other cell > 6 px)",
     "'long' family: 3-node chains (three listings) whose nodes lie along a narrow frame with a node spacing of 1.25x the stride-padded short side of the network input (an edge longer than the frame is wide but at most half its long side), 1-2 animals, both orientations, every configuration",
     "quick: all skeletons n<=3 in all listings, all 64 rooted trees on 4 nodes with one listing each (rotating), 4 pairwise-covering configs, A<=2 (3 for n<=3); thorough: all listings for n<=4, n=5,6 with canonical listing + reverse on a deterministic subset of trees, 16 configs, A<=3 (n<=4), 5 animals for a sub-grid",
 ]
@@ -103,8 +104,10 @@ def long_geometry(n, cfg, n_animals_max):
     return r, d, gap, short, long_side
 
 
-def long_animal(a, n, r, d, gap, short):
+def long_animal(a, n, r, d, gap, short, x_at=None):
     y0 = r + 7 + a * ((n - 1) * d + gap)
+    if x_at is not None:  # narrow-band variant: every node at x_at + fraction (the far half of a PAF cell)
+        return np.array([[gp(x_at, 2 * k + a), gp(y0 + k * d, 2 * k + 1 + a)] for k in range(n)], dtype=np.float64)
     return np.array([[gp(short / 2.0 - 1 + (k % 2), 2 * k + a), gp(y0 + k * d, 2 * k + 1 + a)] for k in range(n)], dtype=np.float64)
 
 
@@ -126,7 +129,7 @@ def build_frames(n, edges, cfg, n_animals_max):
             animals = []
             for a in range(na):
                 if cfg.get("long"):
-                    pts = long_animal(a, n, r, d, gap, W)
+                    pts = long_animal(a, n, r, d, gap, W, cfg.get("x_at"))
                 else:
                     pts = animal(R + r + 6 + step * a, R + r + 6 + (0.5 * R if a % 2 else 0.0), R, n, a)
                 if a == 0:
@@ -187,7 +190,7 @@ def execute(case):
 
         def mk():
             return I.bottomup_predictor(
-                n, edges, cfg["scale"], 16, cfg["cms_stride"], cfg["paf_stride"], 1.5, max(6.0, 0.6 * cfg["paf_stride"] ** 2), link * cfg["scale"],
+                n, edges, cfg["scale"], 16, cfg["cms_stride"], cfg["paf_stride"], 1.5, cfg.get("paf_sigma") or max(6.0, 0.6 * cfg["paf_stride"] ** 2), link * cfg["scale"],
                 (None, None), cfg["refinement"], cfg["batch"], sk,
             )
 
@@ -289,6 +292,14 @@ def cases(tier, seed):
     for n, edges in ((3, [[0, 1], [1, 2]]), (3, [[1, 2], [0, 1]]), (3, [[1, 0], [1, 2]])):
         for ci, cfg in enumerate(cfgs):
             for portrait in (True, False):
+                out.append({"n": n, "edges": edges, "cfg": dict(cfg, provider="VideoReader" if portrait else "LabelsReader", portrait=portrait, long=True), "animals": 2, "labels_too": False})
+    # narrow-band variant of the long family: PAF stride 8 with a PAF spread of 3.5 px, chains running along a grid
+    # direction at an offset in the far half of a PAF cell (x = 14.x): sampling the field at the NEAREST cell stays
+    # within 2 px of the line (weight ~0.9), any other cell of the neighbourhood is > 6 px away (weight < 0.25)
+    for n, edges in ((3, [[0, 1], [1, 2]]), (3, [[1, 0], [1, 2]])):
+        for cms_stride, ref in ((2, None), (4, "integral")):
+            for portrait in (True, False):
+                cfg = {"scale": 1.0, "cms_stride": cms_stride, "paf_stride": 8, "refinement": ref, "batch": 2, "paf_sigma": 3.5, "x_at": 14.0}
                 out.append({"n": n, "edges": edges, "cfg": dict(cfg, provider="VideoReader" if portrait else "LabelsReader", portrait=portrait, long=True), "animals": 2, "labels_too": False})
     return out
 
